@@ -10,7 +10,17 @@ Monitors
   kbmag-roundtrip  (P) random kbmag/GAP record text -> parse_record ->
                    _from_gap_record == the table that was written.
   routes           (W) all construction routes give the model's edge set.
+  relabel-law      (A) ambient postcondition on every FSA.rename_generators call
+                   (the workloads' own, CoxeterGroup.automaton()'s, the repo
+                   tests'): all three views afterwards == {(v, w, map[l])} of
+                   the label view before, whatever kind of indexable the map is.
+
+A history is run on a *world* of live automata: every object a history has
+produced (copies, non-inplace results, the objects they were made from) keeps
+the set model of the history that very object underwent and is re-judged
+after every step, not only the object being edited.
 """
+import collections.abc
 import copy
 import itertools
 import weakref
@@ -22,7 +32,10 @@ from ..ref import fsa_model
 ID = "C09"
 RULE = ("histories = construction route x sequence of FSA edits (dense: every "
         "history of depth<=3 over 3 vertices x 2 labels x 6 routes; random: depth "
-        "<=30 over <=6 vertices/4 labels), two automata interleaved; a case is "
+        "<=30 over <=6 vertices/4 labels, string or integer labels, rename maps "
+        "given as dict / list / tuple), two automata interleaved, every live object "
+        "of a history (copy.copy / deepcopy / non-inplace results and their sources) "
+        "re-judged after every step; a case is "
         "non-trivial when it performs >=1 edit on a non-empty automaton; distinct "
         "= distinct (route, multiset of op kinds, #vertices, #edges at end) "
         "signatures and distinct kbmag (states, labels, syntax features)")
@@ -31,6 +44,14 @@ ASSUMPTIONS = [
     "non-injective renames, are out of domain (counted, not judged)",
     "a vertex missing from the incoming view means 'no incoming edges' "
     "(the view is a defaultdict)",
+    "a rename map is anything indexable by the labels present (dict, list, "
+    "tuple: CoxeterGroup.automaton() passes a list); a map that cannot be "
+    "indexed by some present label is out of domain",
+    "what copy.copy of an automaton means is not fixed by the property: two "
+    "objects whose three view dictionaries are the very same objects are one "
+    "automaton (an edit through either is an edit of both in the model); "
+    "otherwise they are independent automata (an edit through one is not part "
+    "of the other's history)",
 ]
 ANCHORS = [("geometry_tools/automata/fsa.py", q) for q in (
     "FSA.__init__", "FSA._from_graph_dict", "FSA._build_graph_dict",
@@ -89,6 +110,63 @@ def view_problems(fsa):
     return probs
 
 
+def edge_view_mismatch(fsa, want, want_vertices):
+    """first (key, text) in which the three views of `fsa` differ from the
+    sorted labelled edge list `want` on the vertex set `want_vertices`
+    (incl. internal coherence), or None."""
+    ge, oe, ie, gv, ov, iv = fsa_model.lib_views(fsa)
+    for name, lst in (("label", ge), ("outgoing", oe), ("incoming", ie)):
+        if sorted(set(lst), key=repr) != want:
+            return ("%s-view" % name,
+                    "%s view %r != set model %r" % (name, lst[:6], want[:6]))
+    if gv != set(want_vertices):
+        return ("vertices", "vertex set %r != model %r"
+                % (sorted(gv, key=repr), sorted(want_vertices, key=repr)))
+    probs = view_problems(fsa)
+    if probs:
+        return probs[0]
+    return None
+
+
+def map_kind(mp):
+    for t in (dict, list, tuple):
+        if isinstance(mp, t):
+            return t.__name__
+    if isinstance(mp, collections.abc.Mapping):
+        return "mapping"
+    return "indexable"
+
+
+def resolve_map(mp, labels):
+    """The relabelling `mp` (anything indexable by the labels) restricted to
+    `labels`, as a plain dict -- by indexing the caller's object only.
+    -> (dict, None) or (None, out-of-domain reason)."""
+    full = {}
+    for l in labels:
+        if isinstance(mp, collections.abc.Mapping):
+            if l not in mp:           # (no __getitem__: a defaultdict would grow)
+                return None, "rename map does not cover every label"
+            full[l] = mp[l]
+        else:
+            if isinstance(l, bool) or not isinstance(l, int) \
+                    or not hasattr(mp, "__len__") or not 0 <= l < len(mp):
+                return None, "sequence rename map cannot be indexed by every label"
+            full[l] = mp[l]
+    try:
+        if len(set(full.values())) != len(full):
+            return None, "non-injective rename"
+    except TypeError:
+        return None, "unhashable new label"
+    return full, None
+
+
+def full_alias(A, B):
+    """A and B are one automaton: their three view dictionaries are the very
+    same objects (attribute reading only)."""
+    return (A.graph_dict is B.graph_dict and A.out_dict is B.out_dict
+            and A.in_dict is B.in_dict)
+
+
 def describe(fsa):
     try:
         return {"graph_dict": {repr(k): {repr(l): repr(w) for l, w in v.items()}
@@ -125,6 +203,59 @@ def setup(run):
     sanit.watch_defaults([FSA.__init__.__gtmon_original__,
                           __import__("geometry_tools.automata.kbmag_utils",
                                      fromlist=["x"]).build_dict])
+
+    # relabel-law: ambient postcondition on *every* rename_generators call,
+    # whoever makes it (the workloads, CoxeterGroup.automaton(), the repo's
+    # tests).  The map is applied by plain indexing of the caller's object, so
+    # dict, list and tuple maps are judged alike (seeded change C09-r3-1: a
+    # 'lenient' `label in rename_map` test looks at the *values* of a sequence
+    # map, leaving integer labels unrenamed -- three coherent views of the
+    # wrong edge set).
+    rl = run.monitor("relabel-law", min_events=20)
+
+    def rename_pre(call):
+        b = call.bound()
+        obj = b.get("self")
+        if not isinstance(obj, FSA) or obj in _tainted or view_problems(obj):
+            return None
+        ge, _oe, _ie, gv, _ov, _iv = fsa_model.lib_views(obj)
+        return (ge, gv)
+
+    def rename_post(call, state):
+        if state is None:
+            return rl.skip("automaton out of domain or incoherent before the call")
+        if call.exc is not None:
+            return      # the exception itself reaches the workload / run_case
+        b = call.bound()
+        obj, mp, inplace = b.get("self"), b.get("rename_map"), b.get("inplace")
+        ge, gv = state
+        labs = {l for (_v, _w, l) in ge}
+        full, why = resolve_map(mp, labs)
+        if full is None:
+            return rl.skip(why)
+        kind = map_kind(mp)
+        want = sorted({(v, w, full[l]) for (v, w, l) in ge}, key=repr)
+        case = {"history": _state.get("history"), "rename_map": repr(mp),
+                "inplace": bool(inplace),
+                "edges_before": [list(map(repr, e)) for e in ge]}
+        target = obj if inplace else call.result
+        if not isinstance(target, FSA):
+            return rl.skip("no automaton returned")
+        bad = edge_view_mismatch(target, want, gv)
+        if bad:
+            case["views"] = describe(target)
+            return rl.fail("relabel/%s/map:%s/inplace:%s" % (bad[0], kind, bool(inplace)),
+                           "after rename_generators(%r): %s" % (mp, bad[1]), case)
+        if not inplace:
+            bad = edge_view_mismatch(obj, sorted(set(ge), key=repr), gv)
+            if bad:
+                case["views"] = describe(obj)
+                return rl.fail("relabel/source-changed/%s/map:%s" % (bad[0], kind),
+                               "rename_generators(inplace=False) changed the automaton "
+                               "it was called on: %s" % bad[1], case)
+        rl.ok()
+    attach.wrap_attr(run, FSA, "rename_generators", rename_post, pre=rename_pre)
+
     run.monitor("history-model", min_events=50)
     run.monitor("kbmag-roundtrip", min_events=5)
     run.monitor("routes", min_events=5)
@@ -158,12 +289,20 @@ def dense_ops():
     ops.append(("rename", {"a": "b", "b": "a"}, True))
     ops.append(("rename", {"a": "x", "b": "y"}, False))
     ops.append(("deepcopy",))
+    # sequence rename maps (in domain on integer-labelled automata only): new
+    # names disjoint from / overlapping the old integer labels (C09-r3-1)
+    ops.append(("rename_seq", "list", ["a", "b"], True))
+    ops.append(("rename_seq", "tuple", [1, "a"], False))
+    # shallow copies: go on editing the copy / go on editing the original, the
+    # other object stays live in the history's world (C09-r3-2)
+    ops.append(("copy",))
+    ops.append(("copy_keep",))
     return ops
 
 
 DENSE_OPS = dense_ops()
 ROUTES = ["empty", "label_dict", "label_dict_hidden", "target_dict",
-          "deepcopy", "free"]
+          "deepcopy", "free", "int_labels", "copy"]
 DENSE_TOTAL = len(ROUTES) * len(DENSE_OPS) ** 3
 
 
@@ -186,6 +325,13 @@ def build_route(route, rng=None, universe=None):
         d = {0: {"a": 1}, 1: {"a": 2}, 2: {"a": 0, "b": 2}}
         return (copy.deepcopy(fsamod.FSA(d, start_vertices=[0])),
                 fsa_model.Model.from_label_dict(d, [0]))
+    if route == "int_labels":
+        d = {0: {0: 1, 1: 2}, 1: {1: 0}, 2: {0: 2}}
+        return fsamod.FSA(d, start_vertices=[0]), fsa_model.Model.from_label_dict(d, [0])
+    if route == "copy":
+        d = {0: {"a": 1, "b": 2}, 1: {"a": 1}, 2: {"a": 0, "b": 2}}
+        return (copy.copy(fsamod.FSA(d, start_vertices=[0])),
+                fsa_model.Model.from_label_dict(d, [0]))
     if route == "free":
         F = fsamod.free_automaton("a")
         gens = ["a", "A"]
@@ -194,10 +340,13 @@ def build_route(route, rng=None, universe=None):
     raise ValueError(route)
 
 
-def random_route(rng):
+def random_route(rng, int_labels=False, shallow=False):
+    """int_labels: the alphabet is 0..k-1 (as the Coxeter automaton generator
+    produces) instead of strings; shallow: the copy route uses copy.copy
+    instead of copy.deepcopy.  (Same random draws in every variant.)"""
     from geometry_tools.automata import fsa as fsamod
     nv = int(rng.integers(1, 7))
-    labels = ["a", "b", "c", "ab"][:int(rng.integers(1, 5))]
+    labels = ([0, 1, 2, 3] if int_labels else ["a", "b", "c", "ab"])[:int(rng.integers(1, 5))]
     verts = list(range(nv))
     kind = ["label", "target", "deepcopy", "gap"][int(rng.integers(0, 4))]
     d = {}
@@ -212,6 +361,8 @@ def random_route(rng):
     if kind == "label":
         return "rand_label", fsamod.FSA(d, start_vertices=[0]), model, labels
     if kind == "deepcopy":
+        if shallow:
+            return "rand_copy", copy.copy(fsamod.FSA(d, start_vertices=[0])), model, labels
         return "rand_deepcopy", copy.deepcopy(fsamod.FSA(d, start_vertices=[0])), model, labels
     if kind == "gap":
         # through the kbmag table route: vertices 1..n, 0 = fail
@@ -284,9 +435,34 @@ def apply_op(op, F, M):
             F = F.rename_generators(full, inplace=False)
         M = M.copy()
         M.rename(full)
-    elif kind == "deepcopy":
+    elif kind == "rename_seq":
+        # the map is a *sequence* indexed by integer labels -- the form
+        # CoxeterGroup.automaton() itself passes (ordered_gens is a list);
+        # also handed over as a dict with keys 0..n-1 for comparison
+        _, container, seq, inplace = op
+        labs = {l for (_v, l) in M.delta}
+        full, why = resolve_map(list(seq), labs)
+        if full is None:
+            return F, M, why
+        mp = {"list": list(seq), "tuple": tuple(seq),
+              "dict": dict(enumerate(seq))}[container]
+        if inplace:
+            F.rename_generators(mp, inplace=True)
+        else:
+            F = F.rename_generators(mp, inplace=False)
+        M = M.copy()
+        M.rename(full)
+    elif kind in ("deepcopy", "deepcopy_keep"):
         F = copy.deepcopy(F)
         M = M.copy()
+    elif kind in ("copy", "copy_keep"):
+        # whether the shallow copy is the same automaton or an independent one
+        # is for World.apply to observe (full_alias); the model content at the
+        # moment of copying is the same either way
+        F = copy.copy(F)
+        M = M.copy()
+    elif kind == "switch":
+        pass            # world-level: which live object the next edits go through
     elif kind == "query":
         # read-only adjacency queries between two existing vertices, adjacent or
         # not: they must not change any view (seeded change C09-r2-2: has_edge /
@@ -295,9 +471,9 @@ def apply_op(op, F, M):
         _, t, h = op
         if t not in M.vertices or h not in M.vertices:
             return F, M, "query on a missing vertex"
-        want = sorted(l for (u, l), w in M.delta.items() if u == t and w == h)
+        want = sorted((l for (u, l), w in M.delta.items() if u == t and w == h), key=repr)
         got_has = F.has_edge(t, h)
-        got_labels = sorted(F.edge_labels(t, h))
+        got_labels = sorted(F.edge_labels(t, h), key=repr)
         list(F.edges_out(t))
         list(F.edges_in(h))
         list(F.neighbors_out(t))
@@ -308,32 +484,103 @@ def apply_op(op, F, M):
     return F, M, "ok"
 
 
-def compare(run, F, M, step, history):
+def compare(run, F, M, step, history, role=""):
+    """views of F == set model M (and coherent).  `role` marks a live object
+    of the history other than the one the step went through."""
     mon = run.monitor("history-model")
     ge, oe, ie, gv, ov, iv = fsa_model.lib_views(F)
     want = sorted(M.edges(), key=repr)
-    case = {"history": history, "step": step, "views": describe(F),
-            "model_edges": [list(map(repr, e)) for e in want],
-            "model_vertices": sorted(map(repr, M.vertices))}
+
+    def case():
+        return {"history": history, "step": step, "object": role or "edited-object",
+                "views": describe(F),
+                "model_edges": [list(map(repr, e)) for e in want],
+                "model_vertices": sorted(map(repr, M.vertices))}
     opk = history[step][0] if 0 <= step < len(history) else "construct"
     if sorted(set(ge), key=repr) != want:
-        return mon.fail("model/label-view/after:%s" % opk,
-                        "label view %r != set model %r" % (ge[:6], want[:6]), case)
+        return mon.fail("model/%slabel-view/after:%s" % (role, opk),
+                        "label view %r != set model %r" % (ge[:6], want[:6]), case())
     if sorted(set(oe), key=repr) != want:
-        return mon.fail("model/outgoing-view/after:%s" % opk,
-                        "outgoing view %r != set model %r" % (oe[:6], want[:6]), case)
+        return mon.fail("model/%soutgoing-view/after:%s" % (role, opk),
+                        "outgoing view %r != set model %r" % (oe[:6], want[:6]), case())
     if sorted(set(ie), key=repr) != want:
-        return mon.fail("model/incoming-view/after:%s" % opk,
-                        "incoming view %r != set model %r" % (ie[:6], want[:6]), case)
+        return mon.fail("model/%sincoming-view/after:%s" % (role, opk),
+                        "incoming view %r != set model %r" % (ie[:6], want[:6]), case())
     if gv != M.vertices:
-        return mon.fail("model/vertices/after:%s" % opk,
+        return mon.fail("model/%svertices/after:%s" % (role, opk),
                         "vertex set %r != model %r" % (sorted(gv, key=repr),
-                                                       sorted(M.vertices, key=repr)), case)
+                                                       sorted(M.vertices, key=repr)), case())
     probs = view_problems(F)
     if probs:
-        return mon.fail("model/%s/after:%s" % (probs[0][0], opk), probs[0][1], case)
+        return mon.fail("model/%s%s/after:%s" % (role, probs[0][0], opk), probs[0][1], case())
     mon.ok()
     return True
+
+
+class World:
+    """The live automata of one history.  Every object the history produced
+    (shallow and deep copies, non-inplace results) *and the object each was
+    made from* stays here with the set model of the history that very object
+    underwent, and all of them are judged after every step -- not only the
+    object the step went through (seeded change C09-r3-2: a shallow __copy__
+    sharing the per-vertex rows, so that editing the copy corrupts the views
+    of the source, which no later call ever looked at).
+
+    Which objects are one automaton is observed, not assumed: objects whose
+    three view dictionaries are the very same objects (full_alias) share one
+    Model instance, so an edit through one IS an edit of the others; as soon
+    as an object's dictionaries are its own (copy.deepcopy, a rebuilding
+    in-place relabelling, an independent __copy__) it keeps the model it had
+    and later edits through the other object are not part of its history."""
+    MAX_LIVE = 4
+
+    def __init__(self, F, M):
+        self.objs = [[F, M]]
+        self.cur = 0
+
+    @property
+    def F(self):
+        return self.objs[self.cur][0]
+
+    @property
+    def M(self):
+        return self.objs[self.cur][1]
+
+    def apply(self, op):
+        kind = op[0]
+        if kind == "switch":
+            if len(self.objs) < 2:
+                return "switch with a single live automaton"
+            self.cur = (self.cur - 1) % len(self.objs)
+            return "ok"
+        F, M = self.objs[self.cur]
+        group = [e for e in self.objs if e[1] is M]
+        before = M.copy()
+        F2, M2, status = apply_op(op, F, M)
+        if status != "ok":
+            return status
+        for e in group:
+            e[1] = M2 if (e[0] is F2 or full_alias(e[0], F2)) else before
+        if F2 is not F:
+            self.objs.append([F2, M2])
+            if not kind.endswith("_keep"):
+                self.cur = len(self.objs) - 1
+            while len(self.objs) > self.MAX_LIVE:
+                drop = 0 if self.cur != 0 else 1
+                del self.objs[drop]
+                if self.cur > drop:
+                    self.cur -= 1
+        return "ok"
+
+    def check(self, run, step, hist):
+        """the object the step went through first (existing keys), then every
+        other live object against its own model."""
+        if not compare(run, self.F, self.M, step, hist):
+            return False
+        for i, (G, MG) in enumerate(self.objs):
+            if i != self.cur and not compare(run, G, MG, step, hist, role="other-object/"):
+                return False
+        return True
 
 
 def run_history(run, route_name, F, M, ops, F2=None, M2=None, ops2=()):
@@ -342,15 +589,17 @@ def run_history(run, route_name, F, M, ops, F2=None, M2=None, ops2=()):
     hist = [list(o) for o in ops]
     _state["history"] = {"route": route_name, "ops": hist}
     run.current_case = _state["history"]
-    if not compare(run, F, M, -1, hist):
+    W = World(F, M)
+    if not W.check(run, -1, hist):
         return
+    W2 = World(F2, M2) if F2 is not None else None
+    hist2 = [list(o) for o in ops2]
     nontrivial = False
     kinds = []
-    tainted = False
     for k, op in enumerate(ops):
-        if len(M.delta) > 0:
+        if len(W.M.delta) > 0:
             nontrivial = True
-        F, M, status = apply_op(op, F, M)
+        status = W.apply(op)
         if status.startswith("VIOLATION:"):
             run.monitor("history-model").fail("model/adjacency-query/wrong-answer", status[10:],
                                               {"history": hist, "step": k})
@@ -359,19 +608,19 @@ def run_history(run, route_name, F, M, ops, F2=None, M2=None, ops2=()):
             run.monitor("history-model").skip(status)
             continue
         kinds.append(op[0])
-        if not compare(run, F, M, k, hist):
+        if not W.check(run, k, hist):
             return
-        if F2 is not None and k < len(ops2):
-            F2, M2, st2 = apply_op(ops2[k], F2, M2)
+        if W2 is not None and k < len(ops2):
+            st2 = W2.apply(ops2[k])
             if st2 == "ok":
-                if not compare(run, F2, M2, k, [list(o) for o in ops2]):
+                if not W2.check(run, k, hist2):
                     return
                 # and the first automaton is untouched by edits to the second
-                if not compare(run, F, M, k, hist):
+                if not W.check(run, k, hist):
                     return
     if nontrivial and kinds:
         run.note_class(route_name, ",".join(sorted(set(kinds))),
-                       len(M.vertices), len(M.delta))
+                       len(W.M.vertices), len(W.M.delta))
     _state["history"] = None
 
 
@@ -435,20 +684,131 @@ def random_ops(rng, labels, depth, nv=7):
         elif r < 0.94:
             perm = list(rng.permutation(len(labels)))
             mp = {labels[i]: labels[perm[i]] for i in range(len(labels))}
-            ops.append(("rename", mp, bool(rng.random() < 0.5)))
-        else:
+            inplace = bool(rng.random() < 0.5)
+            if all(isinstance(l, int) for l in labels) and rng.random() < 0.7:
+                ops.append(random_rename_seq(rng, len(labels), inplace))
+            else:
+                ops.append(("rename", mp, inplace))
+        elif r < 0.955:
             ops.append(("deepcopy",))
+        elif r < 0.97:
+            ops.append(("copy",))
+        elif r < 0.98:
+            ops.append(("copy_keep",))
+        elif r < 0.99:
+            ops.append(("deepcopy_keep",))
+        else:
+            ops.append(("switch",))
     return ops
 
 
+SEQ_CONTAINERS = ["list", "tuple", "dict"]
+SEQ_STYLES = ["fresh", "permutation", "overlap"]
+
+
+def random_rename_seq(rng, n, inplace, container=None, style=None):
+    """a rename op whose map is a sequence over the integer labels 0..n-1.
+    fresh: new names are strings; permutation: new names are the old labels
+    shuffled (stays integer-labelled, so relabellings can be chained);
+    overlap: some new names are other old labels, some are strings."""
+    container = container or SEQ_CONTAINERS[int(rng.integers(0, 3))]
+    style = style or SEQ_STYLES[int(rng.integers(0, 3))]
+    fresh = ["x", "y", "z", "w", "xy", "u"][:max(n, 1)]
+    perm = [int(i) for i in rng.permutation(n)]
+    if style == "fresh":
+        seq = list(fresh[:n])
+    elif style == "permutation":
+        seq = perm
+    else:
+        seq = [perm[i] if rng.random() < 0.5 else fresh[i] for i in range(n)]
+    extra = int(rng.integers(0, 2))        # maps may be longer than needed
+    seq = seq + ["q%d" % i for i in range(extra)]
+    return ("rename_seq", container, seq, bool(inplace))
+
+
 def wl_random(run, rng, idx):
-    name, F, M, labels = random_route(rng)
-    name2, F2, M2, labels2 = random_route(rng)
+    # every third history is over integer labels (sequence rename maps are in
+    # domain there), every fifth starts from a shallow copy
+    ints = idx % 3 == 1
+    name, F, M, labels = random_route(rng, int_labels=ints, shallow=idx % 5 == 2)
+    name2, F2, M2, labels2 = random_route(rng, int_labels=ints and idx % 2 == 0)
+    if ints:
+        name += ":int-labels"
     depth = int(rng.integers(1, 31))
     ops = random_ops(rng, labels, depth)
     ops2 = random_ops(rng, labels2, depth)
     run_history(run, name, F, M, ops, F2, M2, ops2)
     if idx < 3:
+        run.sample({"route": name, "ops": ops[:8]})
+
+
+def wl_relabel(run, rng, idx):
+    """edit - relabel - edit histories on integer-labelled automata, the rename
+    map given as list / tuple / dict (idx % 3), its new names fresh /
+    a permutation of / overlapping the old labels ((idx // 3) % 3), in place or
+    not ((idx // 9) % 2); every route incl. the Coxeter automaton generator,
+    whose integer-labelled output CoxeterGroup.automaton() itself relabels
+    with a list (seeded change C09-r3-1)."""
+    container = SEQ_CONTAINERS[idx % 3]
+    style = SEQ_STYLES[(idx // 3) % 3]
+    inplace = bool((idx // 9) % 2)
+    if idx % 6 == 5:
+        from geometry_tools.automata import coxeter_automaton
+        tri = COXETER_TRIANGLES[(idx // 6) % len(COXETER_TRIANGLES)]
+        mat = [[1, tri[0], tri[1]], [tri[0], 1, tri[2]], [tri[1], tri[2], 1]]
+        run.current_case = {"coxeter_matrix": mat}
+        F = coxeter_automaton.generate_automaton_coxeter_matrix(mat, bool((idx // 18) % 2))
+        probs = view_problems(F)
+        if probs:
+            return run.monitor("routes").fail(
+                "routes/coxeter-generator/%s" % probs[0][0], probs[0][1],
+                case={"coxeter_matrix": mat, "views": describe(F)})
+        # the history starts at the (coherent) automaton as observed
+        M = fsa_model.Model.from_label_dict({v: dict(nb) for v, nb in F.graph_dict.items()},
+                                            list(F.start_vertices))
+        name, labels = "coxeter-generator", [0, 1, 2]
+        nv = 4
+    else:
+        name, F, M, labels = random_route(rng, int_labels=True, shallow=idx % 4 == 3)
+        name += ":int-labels"
+        nv = 7
+    n = len(labels)
+    plain = [o for o in random_ops(rng, labels, int(rng.integers(0, 6)), nv=nv)
+             if not o[0].startswith("rename")]
+    ren = random_rename_seq(rng, n, inplace, container, style)
+    after_labels = [x for x in ren[2][:n]]
+    tail = random_ops(rng, after_labels if rng.random() < 0.6 else labels,
+                      int(rng.integers(1, 8)), nv=nv)
+    run_history(run, name + "/relabel:%s:%s" % (container, style), F, M,
+                plain + [ren] + tail)
+    if idx < 2:
+        run.sample({"route": name, "ops": (plain + [ren] + tail)[:8]})
+
+
+COXETER_TRIANGLES = [(2, 3, 7), (3, 3, 4), (2, 4, 5), (3, 3, 3), (2, 2, 5),
+                     (4, 4, 4), (2, 3, 0), (0, 0, 0), (3, 0, 5)]
+COPIERS = [("copy",), ("copy_keep",), ("deepcopy",), ("deepcopy_keep",),
+           ("recurrent_copy",), ("rename", {}, False)]
+
+
+def wl_copy_edit(run, rng, idx):
+    """copy route x structural edits with *both* objects live: the history
+    makes a copy (copy.copy / copy.deepcopy / a non-inplace result; idx % 6),
+    then edits go through the copy, through the original, or alternate
+    (`switch`), and after every step each object must be coherent and equal
+    the model of its own history (seeded change C09-r3-2)."""
+    ints = idx % 7 == 3
+    name, F, M, labels = random_route(rng, int_labels=ints, shallow=idx % 4 == 1)
+    copier = COPIERS[idx % len(COPIERS)]
+    nv = 8          # one more than any route builds: edges to brand-new vertices
+    pre = random_ops(rng, labels, int(rng.integers(0, 3)), nv=nv)
+    ops = list(pre) + [copier]
+    for o in random_ops(rng, labels, int(rng.integers(2, 12)), nv=nv):
+        ops.append(o)
+        if rng.random() < 0.2:
+            ops.append(("switch",))
+    run_history(run, name + "/copy-edit:" + copier[0], F, M, ops)
+    if idx < 2:
         run.sample({"route": name, "ops": ops[:8]})
 
 
@@ -714,6 +1074,23 @@ def wl_routes(run, rng, idx):
         else:
             mon.ok()
     run.note_class(name, len(M.vertices), len(M.delta))
+    if idx % 5 == 0:
+        # CoxeterGroup.automaton(): the generator's integer-labelled automaton,
+        # relabelled in place with the *list* ordered_gens -- judged by the
+        # ambient relabel-law monitor; the result must be coherent
+        from geometry_tools import coxeter
+        tri = COXETER_TRIANGLES[(idx // 5) % len(COXETER_TRIANGLES)]
+        run.current_case = {"triangle": list(tri)}
+        before = run.monitor("relabel-law").evals
+        G = coxeter.TriangleGroup(tri)
+        A = G.automaton(shortlex=bool((idx // 10) % 2))
+        probs = view_problems(A)
+        if probs:
+            mon.fail("routes/coxeter/%s" % probs[0][0], probs[0][1],
+                     case={"triangle": list(tri), "views": describe(A)})
+        elif run.monitor("relabel-law").evals > before:
+            mon.ok()
+            run.note_class("coxeter", tri)
 
 
 def wl_repo_tests(run, rng, idx):
@@ -738,6 +1115,8 @@ WORKLOADS = [
     Workload("dense-depth3-all", wl_dense_block, quick=0,
              thorough=(DENSE_TOTAL + 255) // 256),
     Workload("random-histories", wl_random, quick=400, thorough=6000),
+    Workload("relabel-sequence-maps", wl_relabel, quick=180, thorough=2500),
+    Workload("copy-then-edit", wl_copy_edit, quick=240, thorough=3000),
     Workload("default-sharing", wl_default_sharing, quick=40, thorough=400),
     Workload("shared-source", wl_shared_source, quick=200, thorough=3000),
     Workload("kbmag-text", wl_kbmag, quick=300, thorough=5000),
